@@ -48,7 +48,7 @@ def run(tier, seed):
             res["broken"].append({"what": "correspondence: MuModel and the real mu.c disagree in lock-step", "scenario": "mu_mix",
                                   "seed": m["seed"], "detail": m["replay"]})
     tiex = mu_common.tie(res, "muxfer_replay", "MuXferModel", [("cv_mix", {"VRT_MODE": m}, 80, 800) for m in (0, 1, 2, 3, 4, 7)] +
-                         [("cv_mix", {"VRT_MODE": m, "VRT_GENERIC": 0, "VRT_MIXLOCKS": 0}, 60, 600) for m in (5, 6)], tier, seed)
+                         [("cv_mix", {"VRT_MODE": m, "VRT_MIXLOCKS": 1}, 60, 600) for m in (5, 6)], tier, seed)
     # 2. oracle: shadow occupancy on every acquisition path, counting and binary semaphore flavours
     import scen_common
     specs = [("muwait_mix", {"VRT_MODE": 5}, 600, 10000), ("muwait_mix", {"VRT_MODE": 6}, 500, 8000), ("cv_mix", {"VRT_MODE": 7}, 500, 8000), ("cv_mixlocks", {}, 400, 6000), ("muall_mix", {}, 500, 8000), ("mu_mix", {}, 3000, 60000), ("cv_mix", {"VRT_MODE": 0}, 1500, 30000), ("cv_mix", {"VRT_MODE": 1}, 1000, 30000),
